@@ -373,6 +373,58 @@ def d6_model_parameters(ctx):
     ctx.check(good, f, dr[0] if dr else f.node, "ballot-simplex models draw one symmetric Dirichlet weight per complete ranking", "", "Dirichlet parameter vector or the ranking enumeration changed")
 
 
+def d7_cambridge(ctx):
+    """CambridgeSampler: historical ballot types are mapped onto the model's two blocs consistently."""
+    prog = ctx.prog
+    init = prog.find_func("CambridgeSampler.__init__")
+    pm = astx.parents(init.node)
+    N = Normalizer(init.node, inline=False)
+    defs = {}
+    for n in astx.walk_own(init.node):
+        if isinstance(n, ast.Assign) and isinstance(n.targets[0], ast.Attribute):
+            defs.setdefault(astx.u(n.targets[0]), []).append((bool_key(N.conj(astx.path_condition(init.node, n, pm, carried=False))), astx.u(n.value)))
+    w = dict(defs.get("self.W_bloc", []))
+    c = dict(defs.get("self.C_bloc", []))
+    good = w.get("isnone(W_bloc)") == "[bloc for bloc, prop in self.bloc_voter_prop.items() if prop >= 0.5][0]" and w.get("not isnone(W_bloc)") == "W_bloc" \
+        and c.get("isnone(C_bloc)") == "[bloc for bloc in self.bloc_voter_prop.keys() if bloc != self.W_bloc][0]" and c.get("not isnone(C_bloc)") == "C_bloc"
+    ctx.check(good, init, init.node, "Cambridge: majority bloc = the bloc with share >= 1/2 unless given; minority bloc = the other one", f"{w} / {c}", f"bloc defaults are {w} / {c}")
+    m = dict(defs.get("self.bloc_to_historical", []))
+    ctx.check(m.get("True") == "{self.W_bloc: self.historical_majority, self.C_bloc: self.historical_minority}", init, init.node,
+              "Cambridge: majority bloc <-> historical majority label, minority bloc <-> historical minority label", str(m), f"bloc_to_historical is {m}")
+    hm = dict(defs.get("self.historical_majority", []))
+    hn = dict(defs.get("self.historical_minority", []))
+    ctx.check(hm.get("True") == "historical_majority" and hn.get("True") == "historical_minority" and astx.is_const(init.param_default("historical_majority"), "W")
+              and astx.is_const(init.param_default("historical_minority"), "C"), init, init.node, "Cambridge: historical labels default to W (majority) and C (minority)", "", "historical label defaults changed")
+    f = prog.find_func("CambridgeSampler.generate_profile")
+    tables = {}
+    for name in ("prob_ballot_given_bloc_first", "prob_ballot_given_opp_first", "bloc_first_count", "opp_bloc_first_count"):
+        dv = astx.unique_def(f.node, name)
+        tables[name] = astx.u(dv) if dv is not None else None
+    good = tables["prob_ballot_given_bloc_first"] == "{ballot: freq / bloc_first_count for ballot, freq in ballot_frequencies.items() if ballot[0] == self.bloc_to_historical[bloc]}" \
+        and tables["prob_ballot_given_opp_first"] == "{ballot: freq / opp_bloc_first_count for ballot, freq in ballot_frequencies.items() if ballot[0] == self.bloc_to_historical[opp_bloc]}" \
+        and tables["bloc_first_count"] == "sum([freq for ballot, freq in ballot_frequencies.items() if ballot[0] == self.bloc_to_historical[bloc]])" \
+        and tables["opp_bloc_first_count"] == "sum([freq for ballot, freq in ballot_frequencies.items() if ballot[0] == self.bloc_to_historical[opp_bloc]])"
+    ctx.check(good, f, f.node, "Cambridge: bloc-first / opposing-first type tables are the historical frequencies conditioned on the first label, normalised by their own totals", "",
+              f"type tables are {tables}")
+    ob = astx.unique_def(f.node, "opp_bloc")
+    ctx.check(ob is not None and astx.u(ob) == "self.blocs[(i + 1) % 2]", f, ob or f.node, "Cambridge: the opposing bloc is the other of the two blocs", "", "opp_bloc changed")
+    # assembling a ballot from a type
+    lps = [n for n in astx.walk_own(f.node) if isinstance(n, ast.For) and astx.u(n.iter) == "bloc_ordering"]
+    good = False
+    if len(lps) == 1:
+        b = astx.u(lps[0].target)
+        txt = astx.u(lps[0])
+        want = (f"for {b} in bloc_ordering:\n    if {b} == self.bloc_to_historical[bloc]:\n        if ordered_bloc_slate:\n            full_ballot.append(ordered_bloc_slate.pop(0))\n"
+                f"    elif ordered_opp_slate:\n        full_ballot.append(ordered_opp_slate.pop(0))")
+        good = txt == want
+    ctx.check(good, f, lps[0] if lps else f.node, "Cambridge: each position of the type takes the next unused candidate of the slate it names (own label -> own slate)", "",
+              "ballot assembly from the historical type changed")
+    sl = {n: astx.u(astx.unique_def(f.node, n)) if astx.unique_def(f.node, n) is not None else None for n in ("ordered_bloc_slate", "ordered_opp_slate")}
+    ctx.check(sl["ordered_bloc_slate"] == "[c for c in pl_ordering if c in self.slate_to_candidates[bloc]]" and
+              sl["ordered_opp_slate"] == "[c for c in pl_ordering if c in self.slate_to_candidates[opp_bloc]]", f, f.node,
+              "Cambridge: the PL ordering is split into the two slates, each keeping its order", str(sl), f"slate orderings are {sl}")
+
+
 def facts_super(f):
     from vk import facts
     return facts.super_init_call(f)
@@ -384,6 +436,7 @@ RULES = [
     ("C16.D3", d3_spatial_sort, 3, "spatial models rank candidates by ascending distance"),
     ("C16.D4", d4_interval_indexing, 10, "slate models use the voter bloc's interval for each slate; crossover / Cambridge splits"),
     ("C16.D5", d5_cohesion_sampler, 6, "cohesion sampler: parallel lists stay parallel, renormalised, half-open bins"),
+    ("C16.D7", d7_cambridge, 7, "CambridgeSampler: bloc <-> historical label mapping, conditional type tables, ballot assembly"),
     ("C16.D6", d6_model_parameters, 11, "constructor wiring: combined intervals (3 siblings), name-PL length, impartial-culture alphas, Dirichlet vector"),
 ]
 
@@ -408,6 +461,10 @@ FAULTS = [
     ("AC cross/bloc split swapped", [(BG, "                if i < num_cross_ballots:\n                    # alternate", "                if i < num_bloc_ballots:\n                    # alternate")], "C16.D4"),
 ]
 FAULTS += [
+    ("cambridge labels swapped", [(BG, "            self.W_bloc: self.historical_majority,\n            self.C_bloc: self.historical_minority,", "            self.W_bloc: self.historical_minority,\n            self.C_bloc: self.historical_majority,")], "C16.D7"),
+    ("cambridge majority threshold strict", [(BG, "bloc for bloc, prop in self.bloc_voter_prop.items() if prop >= 0.5", "bloc for bloc, prop in self.bloc_voter_prop.items() if prop > 0.5")], "C16.D7"),
+    ("cambridge opp table normalised by bloc total", [(BG, "                ballot: freq / opp_bloc_first_count", "                ballot: freq / bloc_first_count")], "C16.D7"),
+    ("cambridge assembly pops own slate for other label", [(BG, "                    else:\n                        if ordered_opp_slate:\n                            full_ballot.append(ordered_opp_slate.pop(0))", "                    else:\n                        if ordered_opp_slate:\n                            full_ballot.append(ordered_opp_slate.pop())")], "C16.D7"),
     ("cohesion sum taken before the deletion", [(BG, "                del blocs[bloc_index]\n                del values[bloc_index]\n                total_value_sum = sum(values)\n", "                total_value_sum = sum(values)\n                del blocs[bloc_index]\n                del values[bloc_index]\n")], "C16.D5"),
     ("bin lookup falls back to the last bin", [(BG, "            if bin < flip <= dist_bins[i + 1]:\n                return i\n", "            if bin < flip <= dist_bins[i + 1]:\n                return i\n        return len(dist_bins) - 2\n")], "C16.D5"),
     ("combined interval pairs dict orders", [(BG, "                    [self.pref_intervals_by_bloc[bloc][b] for b in self.blocs],\n                    [self.cohesion_parameters[bloc][b] for b in self.blocs],", "                    list(self.pref_intervals_by_bloc[bloc].values()),\n                    list(self.cohesion_parameters[bloc].values()),", "all")], "C16.D6"),
